@@ -83,4 +83,5 @@ package benchunit
 //@     decreases len(factors) - idx()
 //@   loop 3:
 //@     invariant 0 <= idx() <= len(sigfigs) && fallbackFrom(val, factor, 0) == fallbackFrom(val, factor, idx())
+//@     invariant pickFrom(min, factors, 0) == fallbackFrom(val, factor, 0)
 //@     decreases len(sigfigs) - idx()
